@@ -542,13 +542,15 @@ def run(an: Analysis, rep):
     interps = []
     for V in VERSIONS:
         interps.append(an.interp("from_code", V)[0])
-        r111(an, rep, V)
-        disp, top = r112(an, rep, V)
-        r113(an, rep, V, disp)
-        r114(an, rep, V)
-        r116(an, rep, V)
-        rep.extra.setdefault("flag_dispositions", {})[vname(V)] = disp
-    r115(an, rep)
+        rep.run(r111, an, rep, V)
+        res = rep.run(r112, an, rep, V)
+        if res is not None:
+            disp, top = res
+            rep.run(r113, an, rep, V, disp)
+            rep.extra.setdefault("flag_dispositions", {})[vname(V)] = disp
+        rep.run(r114, an, rep, V)
+        rep.run(r116, an, rep, V)
+    rep.run(r115, an, rep)
     rep.stats.update(an.stats(interps))
     rep.assumptions += [
         "enum._decompose(flag, value) returns (members, not_covered) on 3.7-3.10 (parsed from each stdlib enum.py, see reference/)",
